@@ -96,6 +96,7 @@ def gen_case(rng: random.Random, cfg: str, kind: str) -> dict:
         "cancelled_receive": rng.random() < 0.35,
         "reverse_late": rng.random() < 0.5,
         "close_pending": rng.choice([None, None, None, "r", "s", "rs"]),
+        "close_how": rng.choice(["plain", "cancelled-scope", "expired-deadline", "racing-send"]),
     }  # fmt: skip
 
 
@@ -396,8 +397,37 @@ def execute(case: dict) -> dict:
         await b.send(b"abcdef")
         await anyio.sleep(0.01)
         first = await a.receive(2)  # some data has been received, some is still queued
-        await a.aclose()
+        how = case.get("close_how", "plain")
+        racer: dict = {}
+        if how == "plain":
+            await a.aclose()
+        elif how == "cancelled-scope":
+            # closing under a pending cancellation (what `async with stream:` left by a
+            # cancellation or an expired deadline does): the stream is closed all the same
+            with anyio.CancelScope() as cs:
+                cs.cancel()
+                await a.aclose()
+        elif how == "expired-deadline":
+            with anyio.move_on_after(0):
+                await a.aclose()
+        else:  # "racing-send": another task enters send() in the cycle in which we close
+
+            async def late_send() -> None:
+                try:
+                    await a.send(b"y")
+                    racer["send"] = "sent"
+                except BaseException as e:  # noqa: BLE001
+                    racer["send"] = type(e).__name__
+
+            async with create_task_group() as tg:
+                tg.start_soon(late_send)
+                await a.aclose()
+
+            if racer.get("send") not in ("sent", "ClosedResourceError"):
+                viol.append(("send-racing-with-local-close-wrong-error", {"outcome": racer}))
+
         window("closed_probe")
+        window("closed_probe:" + how)
         try:
             await a.send(b"x")
             viol.append(("send-on-closed-stream-accepted", {}))
@@ -536,6 +566,14 @@ def all_cases(tier: str, seed: int):  # noqa: ANN201
                 yield {"cfg": cfg, "kind": kind, "reader": reader, "sizes": [100, 70000],
                        "max_bytes": [65536], "stall": "none", "reverse": [500, 1], "eof": "send_eof",
                        "probe_closed": False, "probe_busy": False, "reverse_late": True}  # fmt: skip
+
+    # the closed-stream probe with every way of closing
+    for cfg in ("asyncio", "uvloop"):
+        for kind in ("tcp", "unix"):
+            for how in ("cancelled-scope", "expired-deadline", "racing-send"):
+                yield {"cfg": cfg, "kind": kind, "reader": "connected", "sizes": [100],
+                       "max_bytes": [65536], "stall": "none", "reverse": [], "eof": "aclose",
+                       "probe_closed": True, "probe_busy": False, "close_how": how}  # fmt: skip
 
     # a third task closes the stream under a blocked receive(), a blocked send(), or both
     for cfg in ("asyncio", "uvloop"):
